@@ -98,6 +98,7 @@ pub struct C13World {
 
 impl Oracle for C13World {
     fn after_step(&mut self, w: &mut World, rec: &StepRecord) {
+        w.capture_sidecars = true;
         let node = rec.step.node;
         if node >= w.nodes.len() || w.nodes[node].cfg.backend != BackendKind::SqliteCipher {
             return;
@@ -132,8 +133,25 @@ impl Oracle for C13World {
             }
         }
         let dir = w.nodes[node].dir.clone();
-        let (hits, files, _) = scan_dir(&self.sc, &dir);
+        let (mut hits, files, _) = scan_dir(&self.sc, &dir);
         self.scans += 1;
+        // what the directory held inside the open transactions of this call
+        w.capture_sidecars = true;
+        let caps = std::mem::take(&mut w.sidecar_captures);
+        for (label, name, bytes) in &caps {
+            self.scans += 1;
+            w.probe("scan_inside_open_transaction");
+            if name.ends_with("-journal") || name.ends_with("-wal") {
+                self.sidecar_seen = true;
+                w.probe(if bytes.len() > 512 { "scan_of_live_journal_with_pages" } else { "scan_of_live_journal_header_only" });
+            }
+            if bytes.starts_with(b"SQLite format 3\0") {
+                hits.push(format!("{name} at {label}: plain SQLite header"));
+            }
+            if let Some(wh) = self.sc.scan(bytes) {
+                hits.push(format!("{name} at {label}: {wh}"));
+            }
+        }
         if files.iter().any(|f| f.ends_with("-journal") || f.ends_with("-wal")) {
             self.sidecar_seen = true;
             w.probe("scan_while_journal_or_wal_present");
@@ -146,6 +164,9 @@ impl Oracle for C13World {
                     w.violations.push(Violation { property: "C13".into(), clause: "database-file-mode".into(), step: Some(rec.step.id), node: Some(node), detail: format!("{f} has mode {mode:o}"), known: None });
                 }
             }
+        }
+        if hits.iter().any(|h| h.contains("-journal at") || h.contains("-wal at")) {
+            w.probe("hit_in_live_journal");
         }
         for h in hits.into_iter().take(1) {
             w.violations.push(Violation { property: "C13".into(), clause: "plaintext-at-rest".into(), step: Some(rec.step.id), node: Some(node), detail: format!("n{node} after #{} ({}): {h}", rec.step.id, crate::run::op_short(&rec.step.op)), known: None });
@@ -323,7 +344,7 @@ pub fn spec() -> CheckSpec {
     CheckSpec {
         id: "C13",
         level: "exploration",
-        rule: "(1) world runs on SQLCipher nodes (forks, rollbacks, restarts, group-data and image-key updates, id rotations) with planted canaries: message texts, group names/descriptions, relay URLs, and - known to the simulator - MLS group ids, Nostr group ids, exporter secrets of every epoch, image keys, member public keys, as raw bytes, lower/upper hex and base64; after every call a byte scan of every file in the database directory (main file, -journal, -wal, -shm, anything else) finds no canary and no plain SQLite header, and the main file has mode 0600; (2) the constructor x file-state matrix is exhausted under umask 022, 000, 027, 007, 002 and 077: {new with/without keyring entry, new_with_key right/wrong key, new_unencrypted} x {missing, empty, plain, encrypted with key A, keyring-managed}: an encrypted database never opens without its key or through the unencrypted constructor, the right key reopens it with the same data, a plain database is refused by the encrypting constructors, a keyring key is created once and reused, library-created files/directories are owner-only; non-trivial = scan performed in a run with a rollback; distinct = delivery signature / matrix outcome vector",
+        rule: "(1) world runs on SQLCipher nodes (forks, rollbacks, restarts, group-data and image-key updates, id rotations) with planted canaries: message texts, group names/descriptions, relay URLs, and - known to the simulator - MLS group ids, Nostr group ids, exporter secrets of every epoch, image keys, member public keys, as raw bytes, lower/upper hex and base64; after every call - and, through the storage tick hook, at every statement boundary inside the open snapshot / restore / relay transactions of the call, while the rollback journal is live - a byte scan of every file in the database directory (main file, -journal, -wal, -shm, anything else) finds no canary and no plain SQLite header, and the main file has mode 0600; (2) the constructor x file-state matrix is exhausted under umask 022, 000, 027, 007, 002 and 077: {new with/without keyring entry, new_with_key right/wrong key, new_unencrypted} x {missing, empty, plain, encrypted with key A, keyring-managed}: an encrypted database never opens without its key or through the unencrypted constructor, the right key reopens it with the same data, a plain database is refused by the encrypting constructors, a keyring key is created once and reused, library-created files/directories are owner-only; non-trivial = scan performed in a run with a rollback; distinct = delivery signature / matrix outcome vector",
         variants: vec![
             Variant { name: "world-scan", profile: wp, runs_quick: 60, runs_thorough: 3000, oracle: mk_world, guarded: false, configure_gen: Some(big_msgs), post: None, custom: None },
             Variant { name: "matrix", profile: Profile::default(), runs_quick: 2, runs_thorough: 4, oracle: mk_nop, guarded: false, configure_gen: None, post: None, custom: Some(run_matrix) },
